@@ -29,9 +29,25 @@ fn main() {
         eprintln!("ORACLE-ANCHOR-FAILED: {}", e);
         std::process::exit(2);
     }
+    #[cfg(feature = "std")]
+    lanes::watchdog::init(&args);
     if let Some(path) = &args.replay {
         let text = std::fs::read_to_string(path).expect("replay file");
         let v: vcommon::serde_json::Value = vcommon::serde_json::from_str(&text).expect("replay json");
+        if v["watchdog"].is_string() {
+            // a call that never returned: run the exploration again; if it gets stuck again the
+            // watchdog answers REPRODUCED and exits, otherwise it was not reproducible
+            let mut a = args.clone();
+            a.report = "/verif/out/core-watchdog-replay.json".into();
+            let mut rep = Report::new(&a, "replay", "model_checking");
+            if args.prop == "C02" || args.prop == "C10" {
+                let t = false;
+                let cfgs = vec![hbfs::cfg_fine("C02", t), hbfs::cfg_coarse("C02", t)];
+                hbfs::run(&a, &mut rep, cfgs, subject::primary_modes(), &["A"]);
+            }
+            println!("NOT-REPRODUCED");
+            std::process::exit(0);
+        }
         let reproduced = match args.prop.as_str() {
             "C01" => c01::replay(&v),
             "C02" | "C10" => hbfs::replay(&v),
